@@ -3,6 +3,7 @@ package main
 import (
 	"bytes"
 	"fmt"
+	"unsafe"
 	"strconv"
 	"strings"
 
@@ -18,6 +19,12 @@ func init() {
 		c02C(c, unhx(in[0]), key4(in[1]), int(off), al)
 	}
 	replayers["C02R"] = func(c *ctx, in []string) { c02R(c, unhx(in[0]), key4(in[1]), in[2], in[3], in[4]) }
+	replayers["C02WR"] = func(c *ctx, in []string) { c02WR(c, unhx(in[0]), key4(in[1]), key4(in[2]), in[3]) }
+	replayers["C02FB"] = func(c *ctx, in []string) {
+		a, _ := strconv.Atoi(in[1])
+		b, _ := strconv.Atoi(in[2])
+		c02FB(c, in[0], a, b)
+	}
 	replayers["C02WS"] = func(c *ctx, in []string) {
 		a, _ := strconv.Atoi(in[2])
 		b, _ := strconv.Atoi(in[3])
@@ -161,6 +168,58 @@ func c02WS(c *ctx, p []byte, key [4]byte, piece int, shortAt int) {
 	c.emit("C02WS %s %s %d %d -> %s", hx(p), hx(key[:]), piece, shortAt, hx(dst.got))
 }
 
+// C02WR: CipherWriter reused through Reset: the key stream restarts at offset 0
+func c02WR(c *ctx, p []byte, key, key2 [4]byte, splits string) {
+	w := newRecWriter()
+	cw := wsutil.NewCipherWriter(w, key)
+	sizes := intsSpec(splits)
+	write := func(data []byte) {
+		rest := data
+		for i := 0; len(rest) > 0; i++ {
+			k := sizes[i%len(sizes)]
+			if k > len(rest) {
+				k = len(rest)
+			}
+			cw.Write(rest[:k])
+			rest = rest[k:]
+		}
+	}
+	write(p)
+	w2 := newRecWriter()
+	cw.Reset(w2, key2)
+	write(p)
+	c.emit("C02WR %s %s %s %s -> %s %s", hx(p), hx(key[:]), hx(key2[:]), splits, hx(w.all()), hx(w2.all()))
+}
+
+// C02FB: copying helpers on a payload that is a PREFIX of a larger caller buffer: the rest of
+// the caller's backing array stays untouched and the returned payload does not live in it
+func c02FB(c *ctx, name string, n, spare int) {
+	backing := make([]byte, n+spare)
+	for i := range backing {
+		backing[i] = byte(0xC0 + i%7)
+	}
+	saved := append([]byte(nil), backing...)
+	f := ws.Frame{Header: ws.Header{Fin: true, OpCode: ws.OpBinary, Length: int64(n)}, Payload: backing[:n]}
+	var g ws.Frame
+	key := [4]byte{9, 8, 7, 6}
+	switch name {
+	case "MaskFrame":
+		g = ws.MaskFrame(f)
+	case "MaskFrameWith":
+		g = ws.MaskFrameWith(f, key)
+	case "UnmaskFrame":
+		f.Header.Masked, f.Header.Mask = true, key
+		g = ws.UnmaskFrame(f)
+	}
+	inside := false
+	if len(g.Payload) > 0 && len(backing) > 0 {
+		a := uintptr(unsafe.Pointer(&g.Payload[0]))
+		lo := uintptr(unsafe.Pointer(&backing[0]))
+		inside = a >= lo && a < lo+uintptr(len(backing))
+	}
+	c.emit("C02FB %s %d %d -> %d %d", name, n, spare, b2i(bytes.Equal(backing, saved)), b2i(inside))
+}
+
 func c02F(c *ctx, name string, h ws.Header, p []byte, key [4]byte) {
 	caller := append([]byte(nil), p...)
 	f := ws.Frame{Header: h, Payload: caller}
@@ -237,6 +296,20 @@ func runC02(c *ctx) {
 		}
 		for _, sp := range []string{"1", "2", "5", "9,1"} {
 			c02W(c, p, keys[2], sp)
+		}
+	}
+	for _, n := range []int{1, 2, 3, 5, 6, 7, 9, 13, 40} {
+		p := make([]byte, n)
+		c.rng.Read(p)
+		c02WR(c, p, keys[1], keys[2], []string{"1", "3", "7,2", "4096"}[n%4])
+	}
+	for _, name := range []string{"MaskFrame", "MaskFrameWith", "UnmaskFrame"} {
+		for _, n := range []int{1, 7, 8, 33, 200} {
+			for _, spare := range []int{0, 1, n - 1, n, n + 1, 3 * n, 4096} {
+				if spare >= 0 {
+					c02FB(c, name, n, spare)
+				}
+			}
 		}
 	}
 	// frame helpers
